@@ -66,11 +66,18 @@ theorem eraseOld_facts (w : World) (p : SlabID) (ov : Option SlabID) :
       cases h
       simp only [eraseOld, idxOf_setIdx, if_true, AList.find?_erase]
 
-theorem arrRemove_ok {w : World} {p : SlabID} {i : Nat} {cx : Ctx} {old' : Elem} {w' : World} {cx' : Ctx}
-    (H : WorldOk D w cx.ctr) (hhand : HandleOk w p)
+/-- the container handed back is a root afterwards: its handle is current -/
+theorem HandedBack.handleOk {w w' : World} {old : Elem} (h : HandedBack w w' old) {z : SlabID}
+    (hz : old.pay = .ref z) (hl : (w.cont? z).isSome) : HandleOk w' z := by
+  obtain ⟨c, hc⟩ := Option.isSome_iff_exists.mp hl
+  obtain ⟨_, _, _, _, _, hr⟩ := h z c hz hc
+  exact HandleOk.root z hr
+
+theorem arrRemove_okA {rank0 : SlabID → Nat} {w : World} {p : SlabID} {i : Nat} {cx : Ctx} {old' : Elem} {w' : World}
+    {cx' : Ctx} (H0 : WorldOkGen D rank0 none (fun _ => False) w cx.ctr) (hhand : HandleOk w p)
     (h : w.arrRemove p i cx = .ok (old', w', cx')) :
-    WorldOk D w' cx'.ctr ∧ cx.ctr ≤ cx'.ctr ∧ RemovedAt w w' p i old' ∧ HandleOk w' p ∧ SigFrame w w' p := by
-  obtain ⟨rank0, H0⟩ := H
+    WorldOk D w' cx'.ctr ∧ cx.ctr ≤ cx'.ctr ∧ RemovedAt w w' p i old' ∧ HandleOk w' p ∧ SigFrame w w' p ∧
+      OpFrame rank0 w w' p (Moved none (some old')) := by
   unfold arrRemove at h
   split at h
   · rename_i a hpa
@@ -91,7 +98,7 @@ theorem arrRemove_ok {w : World} {p : SlabID} {i : Nat} {cx : Ctx} {old' : Elem}
           cases h
           change WorldOk D (eraseOld w4 p ov) cx'.ctr ∧ cx.ctr ≤ cx'.ctr ∧
             RemovedAt w (eraseOld w4 p ov) p i old' ∧ HandleOk (eraseOld w4 p ov) p ∧
-            SigFrame w (eraseOld w4 p ov) p
+            SigFrame w (eraseOld w4 p ov) p ∧ OpFrame rank0 w (eraseOld w4 p ov) p (Moved none (some old'))
           have hpok : ArrOk w.T a cx.ctr := H0.conts p _ hpa
           obtain ⟨hold, hl, hok', hinl', hrid, _, hctr1, hsz⟩ := hpok.remove_ok H0.legal hrem
           have hks : ((Cont.arr a).kslots w.T)[i]? = some (none, maxInlineArr w.T, old) := by
@@ -196,24 +203,62 @@ theorem arrRemove_ok {w : World} {p : SlabID} {i : Nat} {cx : Ctx} {old' : Elem}
           have hhand5 : HandleOk (eraseOld w4 p ov) p :=
             handleOk_mutate (pc := .arr a3) (pc' := .arr a3) hr4 H5.rank hp4 (by rw [e3]; exact hp4) (fun z _ => e3 z) e1 e4
               (fun q x hq => e6 q x hq) hhand4
+          have hback : HandedBack w (eraseOld w4 p ov) old := by
+            intro x c hx hc
+            have hxs3 : (w3.cont? x).isSome := by rw [F3.sig.isSome, hsome2, hc]; rfl
+            obtain ⟨c3, hc3⟩ := Option.isSome_iff_exists.mp hxs3
+            have hxp : x ≠ p := hpnot x hx
+            have hc3' : w3.cont? x = some c := by
+              have hrk := H0.rank p x (holds_of_kslot hpa hks hx) (by rw [hc]; rfl)
+              rw [F3.above x hxp (by omega), cont?_shiftIdx, cont?_setCont_ne _ _ _ _ hxp]; exact hc
+            obtain ⟨c', hc', hni, hsd⟩ := f2 x c hx hc3'
+            refine ⟨c', by rw [e3]; exact hc', hni, hsd.vid, hsd.storedElems, ?_⟩
+            intro q hq
+            obtain ⟨qc, hqc, hm⟩ := hq
+            rw [e3] at hqc
+            exact hunref x hx hxs3 q ((hS34.holds_iff q x).mp ⟨qc, hqc, hm⟩)
+          -- all the handles
+          have hEold : ∀ z, Moved none (some old') z → old.pay = .ref z := by
+            rintro z (⟨wr, h⟩ | ⟨o, h, hz⟩)
+            · cases h
+            · cases h; rw [← hpay]; exact hz
+          have hsome5 : ∀ z, ((eraseOld w4 p ov).cont? z).isSome = (w.cont? z).isSome := by
+            intro z; rw [e3, hS34.isSome, F3.sig.isSome, hsome2]
+          have K12 : HKeep (Moved none (some old')) w
+              ((w.setCont p (.arr a')).shiftIdx p (fun j => if j > i then j - 1 else j)) :=
+            hkeep_remove (pc' := .arr a') _ hpa rfl (kslots_arr_eraseIdx w.T hl) hks
+              (fun z hz => moved_old none (by rw [hpay]; exact hz)) rfl (find?_idxOf_shiftIdx _ _ _) (by simp)
+              (fun z hz => by simp [Ne.symm hz])
+          have K23 : HKeep (Moved none (some old')) _ w3 :=
+            HKeep.of_curKept _ (fun q y => (F3.sig.holds_iff q y).mp) F3.cur
+          have K34 : HKeep (Moved none (some old')) w3 w4 := HKeep.of_sig _ hS34 hidx43 hh4
+          have K45 : HKeep (Moved none (some old')) w4 (eraseOld w4 p ov) :=
+            HKeep.of_erase e1 e3 e4 (fun q z hzE => eraseOld_keep w4 p ov q z (fun o ho hoz => by
+              obtain ⟨_, _, _, _, _, hcase⟩ := hun'
+              rcases hcase with ⟨h1, _⟩ | ⟨o', c', h1, h2, _⟩
+              · rw [ho] at h1; cases h1
+              · rw [ho] at h1; cases h1
+                exact hzE (moved_old none (by rw [hpay, ← hoz]; exact h2))))
           refine ⟨⟨rank0, by rw [hctr4]; exact H5⟩, by omega, ⟨a, a3, old, hpa, by rw [e3]; exact hp4, hold,
-            by rw [hl3, hl], hpay, ?_⟩, hhand5,
+            by rw [hl3, hl], hpay, hback⟩, hhand5,
             (((sigFrame_setCont_shift _ _ _ _).trans (SigFrame.of_sig F3.sig p)).trans (SigFrame.of_sig hS34 p)).trans
-              (sigFrame_eraseOld _ _ _ _)⟩
-          intro x c hx hc
-          have hxs3 : (w3.cont? x).isSome := by rw [F3.sig.isSome, hsome2, hc]; rfl
-          obtain ⟨c3, hc3⟩ := Option.isSome_iff_exists.mp hxs3
-          have hxp : x ≠ p := hpnot x hx
-          have hc3' : w3.cont? x = some c := by
-            have hrk := H0.rank p x (holds_of_kslot hpa hks hx) (by rw [hc]; rfl)
-            rw [F3.above x hxp (by omega), cont?_shiftIdx, cont?_setCont_ne _ _ _ _ hxp]; exact hc
-          obtain ⟨c', hc', hni, hsd⟩ := f2 x c hx hc3'
-          refine ⟨c', by rw [e3]; exact hc', hni, hsd.vid, hsd.storedElems, ?_⟩
-          intro q hq
-          obtain ⟨qc, hqc, hm⟩ := hq
-          rw [e3] at hqc
-          exact hunref x hx hxs3 q ((hS34.holds_iff q x).mp ⟨qc, hqc, hm⟩)
+              (sigFrame_eraseOld _ _ _ _),
+            fun z hz hrk hzE => ⟨?_, ?_⟩, fun q y hq => ?_, fun z hzh hzs => ?_⟩
+          · rw [e3, f1 z (fun h => hzE (moved_old none (by rw [hpay]; exact h))), F3.above z hz hrk, cont?_shiftIdx,
+              cont?_setCont_ne _ _ _ _ hz]
+          · rw [e4, hh4, F3.hinfo z hz hrk]; rfl
+          · rw [e6 q y hq, hidx43, F3.idx, find?_idxOf_shiftIdx, if_neg (Ne.symm hq)]; rfl
+          · exact (((K12.trans K23).trans K34).trans K45).handleOk
+              (fun z hz hl => hback.handleOk (hEold z hz) hl) hzh (by rw [← hsome5]; exact hzs)
   · cases h
+
+theorem arrRemove_ok {w : World} {p : SlabID} {i : Nat} {cx : Ctx} {old' : Elem} {w' : World} {cx' : Ctx}
+    (H : WorldOk D w cx.ctr) (hhand : HandleOk w p)
+    (h : w.arrRemove p i cx = .ok (old', w', cx')) :
+    WorldOk D w' cx'.ctr ∧ cx.ctr ≤ cx'.ctr ∧ RemovedAt w w' p i old' ∧ HandleOk w' p ∧ SigFrame w w' p := by
+  obtain ⟨rank0, H0⟩ := H
+  obtain ⟨h1, h2, h3, h4, h5, _⟩ := arrRemove_okA H0 hhand h
+  exact ⟨h1, h2, h3, h4, h5⟩
 
 /-! ### `arrSet` -/
 
@@ -278,11 +323,11 @@ theorem old_unreferenced {w w1 w2 w3 : World} {ctr : Nat} {rank : SlabID → Nat
     have hj0 : qc0.pays[j]? = some (Pay.ref z) := by rw [Cont.sig_pays hs0]; exact hj
     exact hqp (H0.unique q p qc0 _ j i z hqc0 hpa hj0 hpi hzs).1
 
-theorem arrSet_ok {w : World} {p : SlabID} {i : Nat} {v : WVal} {cx : Ctx} {old' : Elem} {w' : World} {cx' : Ctx}
-    (H : WorldOk D w cx.ctr) (hhand : HandleOk w p) (hv : WValOk w p (maxInlineArr w.T) v)
-    (h : w.arrSet p i v cx = .ok (old', w', cx')) :
-    WorldOk D w' cx'.ctr ∧ cx.ctr ≤ cx'.ctr ∧ SetAt w w' p i v old' ∧ HandleOk w' p ∧ SigFrame w w' p := by
-  obtain ⟨rank0, H0⟩ := H
+theorem arrSet_okA {rank0 : SlabID → Nat} {w : World} {p : SlabID} {i : Nat} {v : WVal} {cx : Ctx} {old' : Elem}
+    {w' : World} {cx' : Ctx} (H0 : WorldOkGen D rank0 none (fun _ => False) w cx.ctr) (hhand : HandleOk w p)
+    (hv : WValOk w p (maxInlineArr w.T) v) (h : w.arrSet p i v cx = .ok (old', w', cx')) :
+    WorldOk D w' cx'.ctr ∧ cx.ctr ≤ cx'.ctr ∧ SetAt w w' p i v old' ∧ HandleOk w' p ∧ SigFrame w w' p ∧
+      OpFrame rank0 w w' p (Moved (some v) (some old')) := by
   unfold arrSet at h
   simp only [bind, Except.bind] at h
   split at h
@@ -365,7 +410,8 @@ theorem arrSet_ok {w : World} {p : SlabID} {i : Nat} {v : WVal} {cx : Ctx} {old'
                     (ContsSig.refl w) hpa (cont?_setCont_self _ _ _) (fun z hz => cont?_setCont_ne _ _ _ _ hz) F3.sig
                   change WorldOk D (eraseOld w4 p ov) cx'.ctr ∧ cx.ctr ≤ cx'.ctr ∧
                     SetAt w (eraseOld w4 p ov) p i (.plain e) old' ∧ HandleOk (eraseOld w4 p ov) p ∧
-                    SigFrame w (eraseOld w4 p ov) p
+                    SigFrame w (eraseOld w4 p ov) p ∧
+                    OpFrame rank0 w (eraseOld w4 p ov) p (Moved (some (.plain e)) (some old'))
                   have hw3c : w3.setCallbackArr p i (.plain e) = w3 := rfl
                   rw [hw3c] at hun
                   obtain ⟨e1, e2, e3, e4, e5, e6, e7⟩ := eraseOld_facts w4 p ov
@@ -411,28 +457,58 @@ theorem arrSet_ok {w : World} {p : SlabID} {i : Nat} {v : WVal} {cx : Ctx} {old'
                   have hhand5 : HandleOk (eraseOld w4 p ov) p :=
                     handleOk_mutate (pc := .arr a3) (pc' := .arr a3) hr4 H5.rank hp4 (by rw [e3]; exact hp4)
                       (fun z _ => e3 z) e1 e4 (fun q x hq => e6 q x hq) hhand4
+                  have hback : HandedBack w (eraseOld w4 p ov) old := by
+                    intro x c hx hc
+                    have hxs3 : (w3.cont? x).isSome := by rw [F3.sig.isSome, hsome2, hc]; rfl
+                    have hxp : x ≠ p := hpnot x hx
+                    have hc3' : w3.cont? x = some c := by
+                      have hrk := H0.rank p x (holds_of_kslot hpa hks hx) (by rw [hc]; rfl)
+                      rw [F3.above x hxp (by omega), cont?_setCont_ne _ _ _ _ hxp]; exact hc
+                    obtain ⟨c', hc', hni, hsd⟩ := f2 x c hx hc3'
+                    refine ⟨c', by rw [e3]; exact hc', hni, hsd.vid, hsd.storedElems, ?_⟩
+                    intro q hq
+                    obtain ⟨qc, hqc, hm⟩ := hq
+                    rw [e3] at hqc
+                    exact hunref x hx hxs3 q ((hS34.holds_iff q x).mp ⟨qc, hqc, hm⟩)
+                  -- all the handles
+                  have hEold : ∀ z, Moved (some (WVal.plain e)) (some old') z → old.pay = .ref z := by
+                    rintro z (⟨wr, h⟩ | ⟨o, h, hz⟩)
+                    · cases h
+                    · cases h; rw [← hpay]; exact hz
+                  have hsome5 : ∀ z, ((eraseOld w4 p ov).cont? z).isSome = (w.cont? z).isSome := by
+                    intro z; rw [e3, hS34.isSome, F3.sig.isSome, hsome2]
+                  have K12 : HKeep (Moved (some (WVal.plain e)) (some old')) w (w.setCont p (.arr a')) :=
+                    hkeep_set (pc' := .arr a') _ hpa rfl (kslots_arr_set w.T hl) hks
+                      (fun z hz => moved_old _ (by rw [hpay]; exact hz))
+                      (fun z hz => by simp only at hz; rw [hn] at hz; cases hz) rfl (fun q x => rfl) (by simp)
+                      (fun z hz => by simp [Ne.symm hz])
+                  have K23 : HKeep (Moved (some (WVal.plain e)) (some old')) _ w3 :=
+                    HKeep.of_curKept _ (fun q y => (F3.sig.holds_iff q y).mp) F3.cur
+                  have K34 : HKeep (Moved (some (WVal.plain e)) (some old')) w3 w4 := HKeep.of_sig _ hS34 hidx43 hh4
+                  have K45 : HKeep (Moved (some (WVal.plain e)) (some old')) w4 (eraseOld w4 p ov) :=
+                    HKeep.of_erase e1 e3 e4 (fun q z hzE => eraseOld_keep w4 p ov q z (fun o ho hoz => by
+                      obtain ⟨_, _, _, _, _, hcase⟩ := hun'
+                      rcases hcase with ⟨h1, _⟩ | ⟨o', c', h1, h2, _⟩
+                      · rw [ho] at h1; cases h1
+                      · rw [ho] at h1; cases h1
+                        exact hzE (moved_old _ (by rw [hpay, ← hoz]; exact h2))))
                   refine ⟨⟨rank0, by rw [hctr4]; exact H5⟩, by omega, ⟨a, a3, old, e, hpa, by rw [e3]; exact hp4, hold,
-                    by rw [hl3, hl], hpay, ?_, fun e0 he0 => by cases he0; rfl, fun x wr hxw => by cases hxw⟩, hhand5,
+                    by rw [hl3, hl], hpay, hback, fun e0 he0 => by cases he0; rfl, fun x wr hxw => by cases hxw⟩, hhand5,
                     (((sigFrame_setCont _ _ _).trans (SigFrame.of_sig F3.sig p)).trans (SigFrame.of_sig hS34 p)).trans
-                      (sigFrame_eraseOld _ _ _ _)⟩
-                  intro x c hx hc
-                  have hxs3 : (w3.cont? x).isSome := by rw [F3.sig.isSome, hsome2, hc]; rfl
-                  have hxp : x ≠ p := hpnot x hx
-                  have hc3' : w3.cont? x = some c := by
-                    have hrk := H0.rank p x (holds_of_kslot hpa hks hx) (by rw [hc]; rfl)
-                    rw [F3.above x hxp (by omega), cont?_setCont_ne _ _ _ _ hxp]; exact hc
-                  obtain ⟨c', hc', hni, hsd⟩ := f2 x c hx hc3'
-                  refine ⟨c', by rw [e3]; exact hc', hni, hsd.vid, hsd.storedElems, ?_⟩
-                  intro q hq
-                  obtain ⟨qc, hqc, hm⟩ := hq
-                  rw [e3] at hqc
-                  exact hunref x hx hxs3 q ((hS34.holds_iff q x).mp ⟨qc, hqc, hm⟩)
+                      (sigFrame_eraseOld _ _ _ _),
+                    fun z hz hrk hzE => ⟨?_, ?_⟩, fun q y hq => ?_, fun z hzh hzs => ?_⟩
+                  · rw [e3, f1 z (fun h => hzE (moved_old _ (by rw [hpay]; exact h))), F3.above z hz hrk,
+                      cont?_setCont_ne _ _ _ _ hz]
+                  · rw [e4, hh4, F3.hinfo z hz hrk]; rfl
+                  · rw [e6 q y hq, hidx43, F3.idx]; rfl
+                  · exact (((K12.trans K23).trans K34).trans K45).handleOk
+                      (fun z hz hl => hback.handleOk (hEold z hz) hl) hzh (by rw [← hsome5]; exact hzs)
                 | child x wr =>
                   obtain ⟨hlive, hroot, hanc, hwb⟩ := hv
                   obtain ⟨c, hx⟩ := Option.isSome_iff_exists.mp hlive
                   simp only [World.storableOf] at hst
                   obtain ⟨rank', c1, H1, hr', hrk, hc1, hsd1, he, hinl1, he1, he2, hco1, hT1, ha1, hh1, hm1, hctr1,
-                    hroot1, hS1⟩ := prep_child H0 hx hroot hanc hwb (Nat.le_refl _) hst
+                    hroot1, hS1, hrp, hrle⟩ := prep_child H0 hx hroot hanc hwb (Nat.le_refl _) hst
                   have hxp : p ≠ x := by intro h; rw [h] at hrk; omega
                   have hpa1 : w1.cont? p = some (.arr a) := by rw [hco1 p hxp]; exact hpa
                   have hpok : ArrOk w.T a cx1.ctr := by rw [hctr1]; exact H0.conts p _ hpa
@@ -547,7 +623,8 @@ theorem arrSet_ok {w : World} {p : SlabID} {i : Nat} {v : WVal} {cx : Ctx} {old'
                     · rw [hov] at h1; cases h1
                       exact slabID_beq_false (fun h => hxold o h2 h.symm)
                   suffices hgen : ∀ w6, w6 = eraseOld w4 p ov → WorldOk D w6 cx'.ctr ∧ cx.ctr ≤ cx'.ctr ∧
-                      SetAt w w6 p i (.child x wr) old' ∧ HandleOk w6 p ∧ SigFrame w w6 p from
+                      SetAt w w6 p i (.child x wr) old' ∧ HandleOk w6 p ∧ SigFrame w w6 p ∧
+                      OpFrame rank0 w w6 p (Moved (some (.child x wr)) (some old')) from
                     hgen _ (arrSet_final w4 p x wr ov hovne)
                   intro w6 hw6
                   subst hw6
@@ -616,11 +693,8 @@ theorem arrSet_ok {w : World} {p : SlabID} {i : Nat} {v : WVal} {cx : Ctx} {old'
                   have hhand5 : HandleOk (eraseOld w4 p ov) p :=
                     handleOk_mutate (pc := .arr a3) (pc' := .arr a3) hr4 H5.rank hp4 (by rw [e3]; exact hp4)
                       (fun z _ => e3 z) e1 e4 (fun q y hq => e6 q y hq) hhand4
-                  refine ⟨⟨rank', by rw [hctr4]; exact H5⟩, by have := hctr1; omega, ⟨a, a3, old, e, hpa, by rw [e3]; exact hp4,
-                    hold, by rw [hl3, hl], hpay, ?_, fun e0 he0 => (by cases he0), fun x' wr' hxw => ?_⟩, hhand5,
-                    (((((SigFrame.of_sig hS1 p).trans (sigFrame_setCont _ _ _)).trans (SigFrame.of_sig F3.sig p)).trans
-                      (sigFrame_cbArr _ _ _ _ _)).trans (SigFrame.of_sig hS34 p)).trans (sigFrame_eraseOld _ _ _ _)⟩
-                  · intro o c' ho hc'
+                  have hback : HandedBack w (eraseOld w4 p ov) old := by
+                    intro o c' ho hc'
                     have hos3 : (w3.cont? o).isSome := by rw [F3.sig.isSome, hsome2, hc']; rfl
                     have hop : o ≠ p := hpnot o ho
                     have hox : o ≠ x := hxold o ho
@@ -635,8 +709,7 @@ theorem arrSet_ok {w : World} {p : SlabID} {i : Nat} {v : WVal} {cx : Ctx} {old'
                     rw [e3] at hqc
                     exact hunref o ho (by rw [cont?_setCallbackArr]; exact hos3) q
                       ((hS34.holds_iff q o).mp ⟨qc, hqc, hm⟩)
-                  · cases hxw
-                    refine ⟨hepay, ?_, c1, by rw [e3]; exact hx4, by rw [he]⟩
+                  have hxhand : HandleOk (eraseOld w4 p ov) x := by
                     refine HandleOk.child x ⟨p, none, maxInlineArr w3.T - 2 * wr, wr⟩
                       (by rw [e4, hh4, hinfo_setCallbackArr, if_pos rfl]) ?_ hhand5
                     refine ⟨maxInlineArr w3.T, _, Or.inl ⟨a3, i, by rw [e3]; exact hp4, ?_, he3, rfl,
@@ -648,7 +721,65 @@ theorem arrSet_ok {w : World} {p : SlabID} {i : Nat} {v : WVal} {cx : Ctx} {old'
                         · rw [ho] at h1; cases h1
                           exact hxold o h2),
                       hidx43, idxOf_setCallbackArr, if_pos ⟨rfl, rfl⟩]
+                  -- all the handles
+                  have hEcases : ∀ z, Moved (some (WVal.child x wr)) (some old') z → z = x ∨ old.pay = .ref z := by
+                    rintro z (⟨wr', h⟩ | ⟨o, h, hz⟩)
+                    · cases h; exact Or.inl rfl
+                    · cases h; right; rw [← hpay]; exact hz
+                  have hsome5 : ∀ z, ((eraseOld w4 p ov).cont? z).isSome = (w.cont? z).isSome := by
+                    intro z; rw [e3, hS34.isSome, cont?_setCallbackArr, F3.sig.isSome, hsome2]
+                  have K01 : HKeep (Moved (some (WVal.child x wr)) (some old')) w w1 := HKeep.of_sig _ hS1 hidx1 hh1
+                  have K12 : HKeep (Moved (some (WVal.child x wr)) (some old')) w1 (w1.setCont p (.arr a')) :=
+                    hkeep_set (pc' := .arr a') _ hpa1 rfl (by rw [hT1]; exact kslots_arr_set w.T hl)
+                      (by rw [hT1]; exact hks) (fun z hz => moved_old _ (by rw [hpay]; exact hz))
+                      (fun z hz => by simp only at hz; rw [hepay] at hz; cases hz; exact moved_child x wr _)
+                      rfl (fun q z => rfl) (by simp) (fun z hz => by simp [Ne.symm hz])
+                  have K23 : HKeep (Moved (some (WVal.child x wr)) (some old')) _ w3 :=
+                    HKeep.of_curKept _ (fun q y => (F3.sig.holds_iff q y).mp) F3.cur
+                  have K3c : HKeep (Moved (some (WVal.child x wr)) (some old')) w3
+                      (w3.setCallbackArr p i (.child x wr)) :=
+                    HKeep.of_curKept _ (fun q y hq => by
+                      obtain ⟨qc, hqc, hm⟩ := hq
+                      rw [cont?_setCallbackArr] at hqc
+                      exact ⟨qc, hqc, hm⟩) hcur34
+                  have Kc4 : HKeep (Moved (some (WVal.child x wr)) (some old')) _ w4 := HKeep.of_sig _ hS34 hidx43 hh4
+                  have K45 : HKeep (Moved (some (WVal.child x wr)) (some old')) w4 (eraseOld w4 p ov) :=
+                    HKeep.of_erase e1 e3 e4 (fun q z hzE => eraseOld_keep w4 p ov q z (fun o ho hoz => by
+                      obtain ⟨_, _, _, _, _, hcase⟩ := hun'
+                      rcases hcase with ⟨h1, _⟩ | ⟨o', c', h1, h2, _⟩
+                      · rw [ho] at h1; cases h1
+                      · rw [ho] at h1; cases h1
+                        exact hzE (moved_old _ (by rw [hpay, ← hoz]; exact h2))))
+                  refine ⟨⟨rank', by rw [hctr4]; exact H5⟩, by have := hctr1; omega, ⟨a, a3, old, e, hpa, by rw [e3]; exact hp4,
+                    hold, by rw [hl3, hl], hpay, hback, fun e0 he0 => (by cases he0), fun x' wr' hxw => ?_⟩, hhand5,
+                    (((((SigFrame.of_sig hS1 p).trans (sigFrame_setCont _ _ _)).trans (SigFrame.of_sig F3.sig p)).trans
+                      (sigFrame_cbArr _ _ _ _ _)).trans (SigFrame.of_sig hS34 p)).trans (sigFrame_eraseOld _ _ _ _),
+                    fun z hz hrk hzE => ⟨?_, ?_⟩, fun q y hq => ?_, fun z hzh hzs => ?_⟩
+                  · cases hxw
+                    exact ⟨hepay, hxhand, c1, by rw [e3]; exact hx4, by rw [he]⟩
+                  · have hzx : z ≠ x := fun h => hzE (h ▸ moved_child x wr _)
+                    rw [e3, f1 z (fun h => hzE (moved_old _ (by rw [hpay]; exact h))), cont?_setCallbackArr,
+                      F3.above z hz (by have := hrle z; omega), cont?_setCont_ne _ _ _ _ hz, hco1 z hzx]
+                  · have hzx : x ≠ z := fun h => hzE (h ▸ moved_child x wr _)
+                    rw [e4, hh4, hinfo_setCallbackArr, if_neg hzx, F3.hinfo z hz (by have := hrle z; omega)]
+                    show AList.find? w1.hinfo z = _
+                    rw [hh1]
+                  · rw [e6 q y hq, hidx43, idxOf_setCallbackArr, if_neg (fun h => hq h.1.symm), F3.idx]
+                    exact hidx1 q y
+                  · exact (((((K01.trans K12).trans K23).trans K3c).trans Kc4).trans K45).handleOk
+                      (fun z hz hl => by
+                        rcases hEcases z hz with h | h
+                        · rw [h]; exact hxhand
+                        · exact hback.handleOk h hl) hzh (by rw [← hsome5]; exact hzs)
       · cases hset
+
+theorem arrSet_ok {w : World} {p : SlabID} {i : Nat} {v : WVal} {cx : Ctx} {old' : Elem} {w' : World} {cx' : Ctx}
+    (H : WorldOk D w cx.ctr) (hhand : HandleOk w p) (hv : WValOk w p (maxInlineArr w.T) v)
+    (h : w.arrSet p i v cx = .ok (old', w', cx')) :
+    WorldOk D w' cx'.ctr ∧ cx.ctr ≤ cx'.ctr ∧ SetAt w w' p i v old' ∧ HandleOk w' p ∧ SigFrame w w' p := by
+  obtain ⟨rank0, H0⟩ := H
+  obtain ⟨h1, h2, h3, h4, h5, _⟩ := arrSet_okA H0 hhand hv h
+  exact ⟨h1, h2, h3, h4, h5⟩
 
 end World
 end Atree
